@@ -969,6 +969,36 @@ func init() {
 			}
 		}
 
+		// ------------------------------------------------------------ honest transactions of every element count
+		c.Phase("valid-every-count") // well-formed transactions with k inputs (k outputs), every k up to 1300 (thorough 5000), standard and extended: a decoder working in blocks meets every remainder
+		{
+			top := 1300
+			if c.Thorough {
+				top = 5000
+			}
+			for k := 0; k <= top; k++ {
+				if !c.Case(uint64(k)) {
+					continue
+				}
+				t := &refcodec.Tx{Version: 1}
+				for i := 0; i < k; i++ {
+					t.Ins = append(t.Ins, refcodec.In{PrevHash: bytes.Repeat([]byte{byte(i), byte(i >> 8)}, 16), Vout: uint32(i), Script: []byte{0x51}, Seq: 0xffffffff, PrevSats: uint64(i), PrevScript: []byte{0x52}})
+				}
+				t.Outs = []refcodec.Out{{Sats: 1, Script: []byte{0x51}}}
+				if k%2 == 1 { // the same count on the output side
+					t.Ins, t.Outs = t.Ins[:1], nil
+					for i := 0; i < k; i++ {
+						t.Outs = append(t.Outs, refcodec.Out{Sats: uint64(i), Script: []byte{0x51, byte(i)}})
+					}
+				}
+				feedKind("tx", refcodec.Encode(t, k%4 >= 2, nil), "valid", uint64(k), 0)
+				if k%16 == 5 {
+					lb, _ := refcodec.EncodeList([]*refcodec.Tx{t, t}, []bool{false, true}, nil)
+					feedKind("list", lb, "valid", uint64(k), 0)
+				}
+			}
+		}
+
 		// ------------------------------------------------------------ crafted claims at every varint position
 		c.Phase("claims")
 		countClaims := []uint64{253, 65536, 1 << 31, 1 << 32, 1 << 40, 1 << 63, 1<<64 - 1}
